@@ -666,13 +666,18 @@ def _affine_ok(ctx, ci, f, e, sn, defs, unit_names=()):
         if is_self_attr(x, None, sn):
             init = ci.methods.get("__init__")
             if init:
+                idefs_ = local_defs(init)
                 for n in body_walk(init.node):
                     if isinstance(n, ast.Assign) and any(is_self_attr(t, x.attr, init.self_name()) for t in n.targets):
-                        v = canon(n.value)
+                        v = canon(n.value, idefs_)
+                        # the bounds may pass through an array conversion first: np.asarray(cfg.bounds)[:, 0]
+                        v = re.sub(r"^np\.(asarray|array|asanyarray)\(([A-Za-z_0-9.]+\.bounds)(,dtype=[a-z0-9.]+)?\)", r"\2", v)
                         if v.endswith(".bounds[:,0]"):
                             return "lower"
                         if v.endswith(".bounds[:,1]"):
                             return "upper"
+                        if re.search(r"\.bounds\)\[:,[01]\]$", v):
+                            return "unknown-column"  # the level's bounds handed through a helper this rule does not read
         v = canon(x)
         if v.endswith("bounds[:,0]"):
             return "lower"
@@ -705,6 +710,8 @@ def _affine_ok(ctx, ci, f, e, sn, defs, unit_names=()):
                             w = stores[0][1].value
                     if is_unit_sample(s) and isinstance(w, ast.BinOp) and isinstance(w.op, ast.Sub) and col(w.left) == "upper" and col(w.right) == "lower":
                         return True, "lower + unit sample * (upper - lower)"
+        if any(col(x_) == "unknown-column" for x_ in ast.walk(e) if isinstance(x_, (ast.Attribute, ast.Name))):
+            return False, f"`{norm(e)[:80]}`: the bound columns it uses come out of a helper applied to the level's bounds (not read by this rule)"
         return False, f"!`{norm(e)[:80]}` is not the affine map lower + u * (upper - lower) of a unit-cube sample: samples can land outside the box"
     return False, f"genomes `{norm(e)[:60]}` are not an affine image of a unit-cube sample"
 
